@@ -100,7 +100,7 @@ def run(ck, writers=('encap', 'encap_frag', 'encap_ext'), pid_rules='C06', floor
                 ck.finding(f'{pid_rules}.R4', ENC + wname, 'write-before-header', f"{wname}: a write into the buffer happens before the header call", row['site'])
                 continue
             n_rows += 1
-            g = ghost(W, 'hdr_len')
+            g = row.get('g') or ghost(W, 'hdr_len')
             L = LABEL_LEN[part[1]]
             end = row['start'] + row['len']
             ck.obligations += 2
